@@ -91,7 +91,7 @@ def check(prop, tier, seed):
             systems.append({"shape": rng.randrange(NSHAPES), "deps": deps, "barrier": k > 0 and rng.random() < 0.08,
                             "spin": rng.choice([1, 1, 2, 4, 6])})
         scripts.append({"tid": tid, "kind": "dispatch", "systems": systems, "threads": pools[i % len(pools)],
-                        "rounds": rng.randint(1, 5)})
+                        "rounds": rng.randint(1, 5), "async": i % 4 == 3})
         tid += 1
     # pairs that must not overlap, many rounds, with enough threads
     for a in range(NSHAPES):
